@@ -107,7 +107,10 @@ def readHolds (cfg : Cfg) (r : ReadObs) : Bool :=
 def f61 (cfg : Cfg) (r : ReadObs) : Bool :=
   !r.facts.clean && (accessorsFor cfg r.ct).any r.facts.doc
 
-/-- F62 on an observation: the reader depends on Go's map iteration order -/
+/-- the class of the REPAIRED finding F62 (8b400b4) on an observation: two registered keys with
+    different readers occur in the Content-Type, none equals it (the reader used to depend on Go's
+    map iteration order).  Excuses nothing; the driver reports it so that the check can measure
+    that its stream keeps visiting the class. -/
 def f62 (cfg : Cfg) (r : ReadObs) : Bool := Entity.f62 cfg r.ct
 
 end C16
